@@ -740,9 +740,18 @@ func runC20(c *fw.Ctx) {
 				c13Run(aux, 9000+i, c13Scenario{cause: cause, nNodes: 2, host: i % 2, willQos: i % 3, retain: i%2 == 0, willTopic: "w/a/x", filters: []string{"w/a/x", "w/#"}})
 			})
 		}
+		// round 4 additions: acknowledgements racing sweeps, fan-out identifiers, retained replay with
+		// re-SUBSCRIBE, a CONNACK that cannot be written
+		run(func() { c03AckStormN(aux, 9000, c.Pick(3, 16)) })
+		run(func() { c06FanOut(aux) })
+		run(func() { c11ConnackLost(aux, 9000, 2) })
+		for i := 0; i < c.Pick(2, 12); i++ {
+			i := i
+			run(func() { c07Scenario(aux, 9000+i) })
+		}
 		wg.Wait()
 		c.Observe("ms_lifecycle_scenarios", int(time.Since(tAux).Milliseconds()))
-		c.Observe("lifecycle_scenarios_under_race_detector", 8+4+4*c.Pick(4, 40))
+		c.Observe("lifecycle_scenarios_under_race_detector", 8+4+4*c.Pick(4, 40)+3+c.Pick(2, 12))
 		c.Observe("lifecycle_scenario_oracle_violations_not_counted_here", aux.Violations())
 		if aux.Violations() > 0 {
 			c.Extra("lifecycle_scenario_oracle_reports", aux.ViolationSummaries())
